@@ -2,7 +2,7 @@
 
 use crate::driver::CheckSpec;
 use crate::families as fam;
-use crate::ir::{Program, Res};
+use crate::ir::{Objs, Program, Res};
 use crate::pool::Job;
 use crate::subject::Cfg;
 use std::time::Duration;
@@ -344,6 +344,10 @@ pub fn spec(check: &str, tier: &str) -> Option<CheckSpec> {
                         js.push(Job { id: format!("C16-conc-{}-{}", i, j), check: "C16".into(), tier: tier.into(), program: p.clone(), cfg: cfg.clone(), extra: serde_json::json!({"mode": "concurrent", "other": q}) });
                     }
                 }
+            }
+            for which in 0..3u64 {
+                let program = Program { name: format!("CUSTOM-failing-init-{}", which), objs: Objs { atomics: vec![which], ..Default::default() }, threads: vec![vec![]] };
+                js.push(Job { id: format!("C16-custom-{}", which), check: "C16".into(), tier: tier.into(), program, cfg: cfg.clone(), extra: serde_json::json!({"mode": "custom", "which": which}) });
             }
             for (i, p) in fam::prelude_bases(tier).into_iter().enumerate() {
                 js.push(Job { id: format!("C16-prelude-{}", i), check: "C16".into(), tier: tier.into(), program: p, cfg: cfg.clone(), extra: serde_json::json!({"mode": "prelude"}) });
